@@ -66,7 +66,7 @@ CLAIMS = {
         text='Deductive proof (Verus) of the real text of Instance::log_encode: Ok exactly for a known id (first match) of integer kind with a set, FINITE bound that contains an integer; an error leaves the instance unchanged; '
              'a single-integer range returns the constant and adds nothing; otherwise n >= 1 fresh binaries (ids max+1.., kind binary, bound [0,1], subscripts [id,i], name tag) with 2^(n-1) <= U < 2^n, constant ceil(l) and coefficients 2^i / U-2^(n-1)+1. '
              'Ghost lemma (all widths, no bound): the values over all bit assignments are exactly the integers ceil(l)..floor(u) (complete-sequence argument with explicit witness).',
-        note=A1 + 'A2: x.log2().ceil() as usize is the exact ceil(log2 x) (saturating for +inf). Linear::new is verified in the same run (its result is the specified BTreeMap merge of the pairs; for strictly increasing ids and non-dropped coefficients that merge is the input: lemma_acc_incr / lemma_sorted_listing_unique). ASSUMED callee contracts: defined_ids = set of ids; std contracts of the BTreeMap entry API (prophecy-style) and of into_iter (ascending order). Precondition (observation): ids < 2^64-65536. Defect D1 (infinite bound => OOM loop) was found by this check and repaired in /repo (fix: a11f38c).',
+        note=A1 + 'A2: x.log2().ceil() as usize is the exact ceil(log2 x) (saturating for +inf). Linear::new is verified in the same run (its result is the specified BTreeMap merge of the pairs; for strictly increasing ids and non-dropped coefficients that merge is the input: lemma_acc_incr / lemma_sorted_listing_unique). Instance::defined_ids is a verified unit of this check too (it returns exactly the set of declared ids). ASSUMED: std contracts of the BTreeMap entry API (prophecy-style) and of into_iter (ascending order). Precondition (observation): ids < 2^64-65536. Defect D1 (infinite bound => OOM loop) was found by this check and repaired in /repo (fix: a11f38c).',
         technique='contract-based deductive verification (Verus) of mechanically extracted Rust functions + inductive ghost lemmas (complete-sequence criterion over reals with an integrality predicate)',
         ref='DESIGN 6 C12'),
     'C15': dict(
@@ -93,7 +93,7 @@ CLAIMS = {
         text='Deductive proof (Verus) of the real text of Instance::convert_inequality_to_equality_with_integer_slack and add_integer_slack_to_inequality: every rejection (unknown id, not an inequality, no function, undefined or non-integer used variable, slack range above the limit) leaves the instance unchanged; '
              'when the interval enclosure is <= 0 the constraint is moved to the removed list unchanged; otherwise exactly one fresh integer slack variable with bound [0,-L] (resp. [0,S]) tagged with the constraint id is appended and the constraint (same position, id, metadata) becomes f + s/a = 0 (resp. f + b*s <= 0 with b = -lower/S reported), L being a lower bound of a*f on the integer points of the box. '
              'Ghost lemmas: f(x) <= 0 <=> exists integer s in [0,-L]: f(x)+s/a = 0, and the projection statement for b*s.',
-        note=A1 + 'ASSUMED callee contracts: content_factor (a*f integer-valued on integer points), evaluate_bound (enclosure), get_kinds, used ids, defined_ids, f64*Function and Function+Linear (pure, value up to an explicit remainder); A3: as_integer_bound returns (it panics on an interval without an integer). Preconditions (observations): no id overflow, oneofs set. Defect D2 (equality constraints accepted) found by this check and repaired in /repo.',
+        note=A1 + 'ASSUMED callee contracts: content_factor (a*f integer-valued on integer points), evaluate_bound (enclosure), get_kinds, used ids, f64*Function and Function+Linear (pure, value up to an explicit remainder); A3: as_integer_bound returns (it panics on an interval without an integer). Preconditions (observations): no id overflow, oneofs set. Defect D2 (equality constraints accepted) found by this check and repaired in /repo.',
         technique='contract-based deductive verification (Verus) of mechanically extracted Rust functions (prophecy-style &mut contracts) + arithmetic ghost lemmas',
         ref='DESIGN 6 C13'),
     'C08': dict(
